@@ -1,10 +1,15 @@
 (* C13 - Lazy evaluation: a binding function runs only when one of its inputs changed.
    Proved here: the evaluation discipline of one tree (clean nodes run nothing, each node at most once per evaluation),
-   reads are free, evaluator-driven notifications only mark.  The strict statement "only if an input beneath it
-   changed" holds in evaluator-driven mode and for single notification paths; in immediate mode a function reached by
+   reads are free, evaluator-driven notifications only mark, and - C13_function_runs_iff_an_input_beneath_changed - the statement
+   itself for one tree: after notifications for a set of leaves, one evaluation runs exactly the functions above those leaves.
+   The strict statement "only if an input beneath it changed" thus holds in evaluator-driven mode and for single notification
+   paths; in immediate mode a function reached by
    k >= 2 notification paths from ONE changed input runs up to k times: known finding KF-C13-multipath (DESIGN.md 7),
    exhibited by C13_multipath_refuted below. *)
+From Coq Require Import List ZArith.
+Import ListNotations.
 From KDB Require Import Util PropDefs PropProofs.
+From KDB Require PropLazyEval.
 
 Theorem C13_clean_runs_nothing :
   forall fn rtl val t, root_dirty t = false -> snd (eval fn rtl val t) = [].
@@ -28,6 +33,28 @@ Theorem C13_manual_notification_only_marks :
     deliver fn rtl R w p KChanged payload (SNode b leaf) = (put_bind w b (bind_with_root x t), None).
 Proof. exact manual_delivery_only_marks. Qed.
 Print Assumptions C13_manual_notification_only_marks.
+
+(* the statement itself, for one tree and single notification paths (coq/PropLazyEval.v): a clean tree - what a successful
+   evaluation leaves behind -, change notifications for any set L of its input leaves, then ONE successful evaluation: the functions
+   that run are EXACTLY those of the operator nodes with a leaf of L beneath them (`expected`: each once, children before parents),
+   no other function runs, and the tree is clean again (so a further evaluation with nothing changed runs nothing) *)
+Theorem C13_function_runs_iff_an_input_beneath_changed :
+  forall fn val rtl L t,
+    PropLazyEval.cleanN t -> NoDup (PropLazyEval.lids t) -> (forall l, In l L -> In l (PropLazyEval.lids t)) ->
+    exists t1, PropLazyEval.marks t L = Some t1 /\
+      forall t2 v lg, eval fn rtl val t1 = (t2, inl v, lg) -> lg = PropLazyEval.expected rtl L t /\ PropLazyEval.cleanN t2.
+Proof. exact PropLazyEval.lazy_eval_exact. Qed.
+Print Assumptions C13_function_runs_iff_an_input_beneath_changed.
+
+(* non-vacuity: h(g(p0), p1) with p1 changed: h (7) runs, g (8) does not; with p0 changed: g then h *)
+Example C13_exact_example :
+  let lf := fun p l => NProp (Some p) false l dummy_handle dummy_handle dummy_handle in
+  let t := NOp2 7 false 0%Z (NOp1 8 false 0%Z (lf 0 0)) (lf 1 1) in
+  PropLazyEval.expected true [1] t = [7] /\ PropLazyEval.expected true [0] t = [8; 7] /\ PropLazyEval.expected true [] t = [] /\
+  match PropLazyEval.marks t [1] with
+  | Some t1 => snd (eval (fun _ l => Some (fold_right Z.add 0%Z l)) true (fun _ => Some 1%Z) t1) = [7]
+  | None => False end.
+Proof. vm_compute. repeat split; reflexivity. Qed.
 
 (* the strict statement is false in immediate mode: f(x, x) runs f twice for one change of x *)
 Theorem C13_multipath_refuted :
